@@ -688,8 +688,32 @@ func runReal(c *Case) (rr realRun) {
 			if rr.blocks[head].num < s.Target {
 				continue
 			}
+			base := s.Base
+			if !c.Misaligned {
+				// premise of the prune clause (true in production, where the prune target is ~65535 blocks behind every commit):
+				// the root-node cache holds, per trie, the root of the most recent commit that WROTE a root; a commit of an empty
+				// state writes none, so it is the most recent block with a non-empty state that must not be below the target —
+				// otherwise a pruned root is still served from the root cache and its deleted children from the deduped space.
+				// Decided here on the real roots (the generator cannot know which states are empty); a skipped round leaves no
+				// gap: the next round starts at the last target actually pruned.
+				lastRoot := -1
+				for i := len(rr.blocks) - 1; i >= 0; i-- {
+					if rr.blocks[i].root.Hash != emptyTrieRoot {
+						lastRoot = i
+						break
+					}
+				}
+				if lastRoot >= 0 && rr.blocks[lastRoot].num < s.Target {
+					rr.counts["prune_skipped.root_cache_premise"]++
+					continue
+				}
+				base = pruneTarget
+				if s.Target <= base {
+					continue
+				}
+			}
 			rec.Drain()
-			if err := pruner.VerifPruneTries(db, repo.NewChain(rr.blocks[head].id), s.Base, s.Target); err != nil {
+			if err := pruner.VerifPruneTries(db, repo.NewChain(rr.blocks[head].id), base, s.Target); err != nil {
 				rr.err = "prune: " + err.Error()
 				return
 			}
@@ -712,7 +736,7 @@ func runReal(c *Case) (rr realRun) {
 				for _, n := range snames {
 					roots = append(roots, fmt.Sprintf("%x:%s", tie.name(n), verTok(tb.stor[n])))
 				}
-				tieNote(tie.pruneOps(c, rec.Drain(), s.Base, s.Target, roots))
+				tieNote(tie.pruneOps(c, rec.Drain(), base, s.Target, roots))
 			}
 			pruneTarget = s.Target
 			pruneChain = make([]int, rr.blocks[head].num+1)
@@ -1328,7 +1352,10 @@ func runCases(ctx *hx.Ctx, cases []*Case) {
 				continue
 			}
 			reported[classOf(rr.failure)] = true
-			sc := shrink(c, func(x *Case) bool { r := runReal(x); return r.failure != "" })
+			sc := c
+			if os.Getenv("VERIF_NOSHRINK") == "" {
+				sc = shrink(c, func(x *Case) bool { r := runReal(x); return r.failure != "" })
+			}
 			f := rr.failure
 			if r := runReal(sc); r.failure != "" {
 				f = r.failure
